@@ -308,6 +308,8 @@ def rdkit_respell(rng, smi, n):
                 s = Chem.MolToSmiles(m, allHsExplicit=True, **kw)
         except Exception:
             continue
+        if "->" in s or "<-" in s or "*" in s or "$" in s:
+            continue      # dative / wildcard / quadruple bonds: outside the supported subset
         out.add(s)
     return sorted(out)
 
